@@ -409,6 +409,66 @@ def _covered(src, keyset):
     return False
 
 
+def _check_key_injective(ctx, program, site):
+    '''The sources reach the key through an encoding that keeps them apart:
+    a structured hash of the values themselves.  `sep.join(parts)` of a
+    sequence source forgets where one element ends and the next begins
+    (['--title', 'spam eggs'] and ['--title', 'spam', 'eggs'] collide), as do
+    string concatenation and `%`-formatting of several sources without a
+    delimiter that cannot occur in them.'''
+    func = site.func
+    defs = {}
+    for node in walk_local(func.node):
+        if isinstance(node, ast.Assign) and len(node.targets) == 1 and \
+                isinstance(node.targets[0], ast.Name):
+            defs.setdefault(node.targets[0].id, []).append(node.value)
+    seen = set()
+    todo = [ast.Name(id=site.key, ctx=ast.Load())] if isinstance(
+        site.key, str) and site.key.isidentifier() else []
+    exprs = []
+    while todo:
+        cur = todo.pop()
+        for node in ast.walk(cur):
+            if isinstance(node, ast.Name) and node.id in defs and \
+                    node.id not in seen:
+                seen.add(node.id)
+                todo.extend(defs[node.id])
+                exprs.extend(defs[node.id])
+            if isinstance(node, ast.Call):
+                cands, how = program.resolve_call(func, node)
+                if how != 'by-unique-name':
+                    for cand in cands[:1]:
+                        if cand.key not in seen and \
+                                cand.module.name.startswith('valjean'):
+                            seen.add(cand.key)
+                            for ret in walk_local(cand.node):
+                                if isinstance(ret, ast.Return) and \
+                                        ret.value is not None:
+                                    exprs.append(ret.value)
+                                    todo.append(ret.value)
+    joins = []
+    for expr in exprs:
+        for node in ast.walk(expr):
+            if isinstance(node, ast.Call) and call_name(node) == 'join' and \
+                    isinstance(node.func, ast.Attribute) and isinstance(
+                        node.func.value, ast.Constant) and isinstance(
+                            node.func.value.value, str):
+                joins.append(node)
+    for node in joins[:2]:
+        ctx.violated('KEY-INJECTIVE', func,
+                     f'{site.cache}[{site.key}]: key built from '
+                     f'{txt(node)[:50]}', at=func.where(site.test),
+                     detail='joining the elements of a sequence with a '
+                            'separator that may occur inside them is not '
+                            'injective: two different requests spell the '
+                            'same string and silently share one task')
+    if not joins:
+        ctx.holds('KEY-INJECTIVE', func,
+                  f'{site.cache}[{site.key}]: no separator-joined sequence '
+                  f'on the way to the key', at=func.where(site.test),
+                  nontrivial=False)
+
+
 def check_key(ctx):
     program = ctx.program
     n = 0
@@ -463,6 +523,7 @@ def check_key(ctx):
                       f'input of the created task is part of the key',
                       at=site.func.where(site.test),
                       detail={'paths': len(results)})
+        _check_key_injective(ctx, program, site)
         # what the key does cover (evidence)
         cov = sorted(set().union(*(r['key'] for r in results)))
         ctx.holds('KEY-COVER', site.func, f'{site.key} depends on {cov}',
